@@ -20,12 +20,13 @@ ASSUMPTIONS = [
     '"not limited by the recursion depth" is a fact about the Python stack: the model loops are iterative by construction, the clause is exercised on trees of depth 3000..20000',
 ]
 
-GRAMMAR = '''class U { a: "u" }
+GRAMMAR = '''class Z { pass "z" }
+class U { a: "u" }
 class B2 { a: "x"; b: "y" }
 class T3 { a: "x"; b: "y"; c: "z" }
 start = "s"
 '''
-CLASSES = {'U': ['a'], 'B2': ['a', 'b'], 'T3': ['a', 'b', 'c']}
+CLASSES = {'Z': [], 'U': ['a'], 'B2': ['a', 'b'], 'T3': ['a', 'b', 'c']}
 
 
 class Builder:
@@ -192,6 +193,22 @@ def run(tier, seed, lean):
                                    'what': f'RecursionError at nesting depth {depth} through {kind}'})
     sys.setrecursionlimit(100000)
     drv.close()
+    # containers met again are not expanded again: a list that contains itself, and lists shared forty levels deep (2^40 paths)
+    import common
+    for name, make in (('a list that contains itself', lambda o: (lambda l: (l.append(l), l)[1])([o, (o,)])),
+                       ('shared lists nested forty deep', lambda o: __import__('functools').reduce(lambda l, _: [l, l], range(40), [o])),
+                       ('a dict that contains itself', lambda o: (lambda d: (d.__setitem__('self', d), d)[1])({'a': o})),):
+        o = mod.U(1)
+        tree = make(o)
+        evals += 1
+        try:
+            with common.time_limit(10):
+                got = list(mod.visit(tree))
+                ev = sum(1 for _ in mod.traverse(tree))
+            if len(got) != 1 or got[0] is not o or ev % 2:
+                violations.append({'key': f'cyclic|{name}', 'sig': 'cyclic', 'kind': 'spec', 'what': f'{name}: visit yields {len(got)} objects, traverse {ev} events'})
+        except common.Timeout:
+            violations.append({'key': f'cyclic|{name}', 'sig': 'cyclic', 'kind': 'spec', 'what': f'{name}: visit/traverse did not finish within ten seconds'})
     cov = {
         'evaluations': evals,
         'distinct_nontrivial': nontrivial,
